@@ -355,6 +355,8 @@ def oracle_pair(r, sa: str, sb: str, nvals: int):
         if same_layout and not U._has_empty(tb):
             try:
                 back = U.flatten(tb, U.sdk_type(tb).decode(ea))
+            except UnicodeDecodeError:
+                continue      # bytes that are not UTF-8 cannot be shown by algosdk as a str (ARC-4 `string` is byte[] on the wire)
             except Exception as e:  # noqa: BLE001
                 return dict(base, why=f"bytes of a are not a valid encoding of b: {e!r}", enc_b="-")
             if back != U.flatten(ta, v):
@@ -454,9 +456,19 @@ def gate_assign(pt, abi, a_spec, b_spec):
     f.__annotations__ = {"output": a_spec.annotation_type(), "return": pt.Expr}
     sub = pt.ABIReturnSubroutine(f)
     out = {}
-    for route, th in (("store_into", lambda: sub().store_into(b_spec.new_instance())),
-                      ("set(computed)", lambda: b_spec.new_instance().set(sub())),
-                      ("set(instance)", lambda: b_spec.new_instance().set(a_spec.new_instance()))):
+    byte_like = str(b_spec) in ("byte", "uint8")
+    routes = [("store_into", lambda: sub().store_into(b_spec.new_instance())),
+              ("set(computed)", lambda: b_spec.new_instance().set(sub())),
+              ("set(instance)", lambda: b_spec.new_instance().set(a_spec.new_instance())),
+              # the value becomes an ELEMENT of a container whose element type is b (containers are assembled from the elements' encodings)
+              ("element of b[]", lambda: abi.DynamicArrayTypeSpec(b_spec).new_instance().set([a_spec.new_instance()])),
+              ("element of b[2]", lambda: abi.StaticArrayTypeSpec(b_spec, 2).new_instance().set([b_spec.new_instance(), a_spec.new_instance()])),
+              ("element of (bool,b)", lambda: abi.TupleTypeSpec(abi.BoolTypeSpec(), b_spec).new_instance().set(abi.Bool(), a_spec.new_instance()))]
+    if byte_like:
+        routes += [("element of DynamicBytes", lambda: abi.DynamicBytes().set([a_spec.new_instance()])),
+                   ("element of String", lambda: abi.String().set([a_spec.new_instance()])),
+                   ("element of StaticBytes[1]", lambda: abi.StaticBytesTypeSpec(1).new_instance().set([a_spec.new_instance()]))]
+    for route, th in routes:
         if route == "set(instance)" and isinstance(b_spec, abi.TupleTypeSpec) and not isinstance(a_spec, abi.TupleTypeSpec):
             continue     # Tuple.set(x) with a non-tuple x builds a one-element tuple from x: a construction, not an assignment
         try:
@@ -652,7 +664,11 @@ def run(tier: str) -> int:
     # (6c) the assignment routes (store_into of a routine's result, set from a computed value, set from another variable)
     from collections import Counter
     as_n, as_acc, as_bad = 0, Counter(), 0
-    for oa, ob, real_asg, a, b in gate_todo[: (1500 if thorough else 300)]:
+    # directed: every pair of the basic leaf types (the element routes need byte-like targets next to wider integers)
+    basic = [abi.type_specs_from_signature(f"m({t_})void")[0][0] for t_ in
+             ("bool", "byte", "uint8", "uint16", "uint32", "uint64", "address", "string", "byte[]", "byte[4]", "uint8[4]", "(uint8,bool)")]
+    directed_pairs = [(x_, y_, None, str(x_), str(y_)) for x_ in basic for y_ in basic]
+    for oa, ob, real_asg, a, b in directed_pairs + gate_todo[: (1500 if thorough else 300)]:
         if not (is_codec_str(str(oa)) and is_codec_str(str(ob))):
             continue
         try:
